@@ -14,6 +14,8 @@ use std::mem;
 verus! {
 
 //@include _shared/registry_preamble_a.rs
+opaque!(Channel);
+opaque!(BusListener);
 //@item core/src/message/subscribe_event.rs struct SubscribeEvent attr=derive(Clone,Copy)
 //@item core/src/message/subscribe_event_reply.rs enum SubscribeEventResult
 //@item core/src/message/subscribe_event_reply.rs struct SubscribeEventReply
@@ -47,24 +49,6 @@ impl ServiceInfo {
 //@include _shared/registry_preamble_b.rs
 impl Broker {
     //@include _shared/registry_inv.rs
-
-    // Only the subscription records of service `k` and of connection `id` may differ between the two states
-    spec fn only_subs_changed(&self, o: &Self, k: (ObjectUuid, ServiceUuid), id: ConnectionId) -> bool {
-        &&& self.same_rest(o)
-        &&& self.obj_uuids@ =~= o.obj_uuids@ &&& self.objs@ =~= o.objs@ &&& self.svc_uuids@ =~= o.svc_uuids@
-        &&& self.calls() =~= o.calls()
-        &&& self.svcs@.dom() =~= o.svcs@.dom() &&& self.conns@.dom() =~= o.conns@.dom()
-        &&& forall|k2: (ObjectUuid, ServiceUuid)| #![trigger self.svcs@[k2]] o.svcs@.contains_key(k2) && k2 != k ==> self.svcs@[k2] == o.svcs@[k2]
-        &&& forall|c: ConnectionId| #![trigger self.conns@[c]] o.conns@.contains_key(c) && c != id ==> self.conns@[c] == o.conns@[c]
-        &&& o.svcs@.contains_key(k) ==> {
-                &&& self.svcs@[k].cookie == o.svcs@[k].cookie &&& self.svcs@[k].object_cookie == o.svcs@[k].object_cookie
-                &&& self.svcs@[k].function_calls == o.svcs@[k].function_calls
-            }
-    }
-
-    spec fn unchanged(&self, o: &Self) -> bool {
-        &&& self.same_rest(o) &&& self.same_registry(o) &&& self.calls() =~= o.calls() &&& self.conns@ =~= o.conns@
-    }
 
     // ---- per-event subscriptions -------------------------------------------------------------------------------
     //@fn broker/src/broker.rs Broker::subscribe_event
@@ -166,11 +150,11 @@ impl Broker {
                 let owner = old(self).objs@[k.0].conn_id;
                 &&& final(self).only_subs_changed(old(self), k, *conn_id)
                 &&& final(self).svcs@[k].all_events@ == old(self).svcs@[k].all_events@.remove(*conn_id)
-                &&& final(self).svcs@[k].events == old(self).svcs@[k].events
+                &&& final(self).svcs@[k].events == old(self).svcs@[k].events && final(self).svc_events_same(old(self), k)
                 &&& final(self).svcs@[k].subscriptions == old(self).svcs@[k].subscriptions
                 &&& old(self).conns@.contains_key(*conn_id) ==> {
                         &&& final(self).conns@[*conn_id].all_events@ == old(self).conns@[*conn_id].all_events@.remove(svc_cookie)
-                        &&& final(self).conns@[*conn_id].rest_eq(&old(self).conns@[*conn_id], 4)
+                        &&& final(self).conns@[*conn_id].rest_eq(&old(self).conns@[*conn_id], 4) && final(self).conn_events_same(old(self), *conn_id)
                     }
                 &&& (old(self).svcs@[k].all_events@.len() > 0 && final(self).svcs@[k].all_events@.len() == 0) ==>
                         final(state).unsubscribe_all_events@ == old(state).unsubscribe_all_events@.push((owner, svc_cookie))
@@ -196,7 +180,7 @@ impl Broker {
                 let k = old(self).skey(svc_cookie);
                 &&& final(self).only_subs_changed(old(self), k, *conn_id)
                 &&& final(self).svcs@[k].subscriptions@ == old(self).svcs@[k].subscriptions@.remove(*conn_id)
-                &&& final(self).svcs@[k].events == old(self).svcs@[k].events
+                &&& final(self).svcs@[k].events == old(self).svcs@[k].events && final(self).svc_events_same(old(self), k)
                 &&& final(self).svcs@[k].all_events == old(self).svcs@[k].all_events
             },
             // the invariant last (the frame facts above are then available), conjunct by conjunct (one query each
@@ -220,10 +204,10 @@ impl Broker {
                 ||| (r is Err && final(self).unchanged(old(self)))
                 ||| (r is Ok && final(self).only_subs_changed(old(self), k, *id)
                         && final(self).svcs@[k].subscriptions@ == old(self).svcs@[k].subscriptions@.insert(*id)
-                        && final(self).svcs@[k].events == old(self).svcs@[k].events
+                        && final(self).svcs@[k].events == old(self).svcs@[k].events && final(self).svc_events_same(old(self), k)
                         && final(self).svcs@[k].all_events == old(self).svcs@[k].all_events
                         && final(self).conns@[*id].subscriptions@ == old(self).conns@[*id].subscriptions@.insert(req.service_cookie)
-                        && final(self).conns@[*id].rest_eq(&old(self).conns@[*id], 5))
+                        && final(self).conns@[*id].rest_eq(&old(self).conns@[*id], 5) && final(self).conn_events_same(old(self), *id))
             },
             // the invariant last (the frame facts above are then available), conjunct by conjunct (one query each
             // keeps the solver stable), then as a whole
@@ -244,10 +228,10 @@ impl Broker {
                 &&& r is Ok
                 &&& final(self).only_subs_changed(old(self), k, *id)
                 &&& final(self).svcs@[k].subscriptions@ == old(self).svcs@[k].subscriptions@.remove(*id)
-                &&& final(self).svcs@[k].events == old(self).svcs@[k].events
+                &&& final(self).svcs@[k].events == old(self).svcs@[k].events && final(self).svc_events_same(old(self), k)
                 &&& final(self).svcs@[k].all_events == old(self).svcs@[k].all_events
                 &&& final(self).conns@[*id].subscriptions@ == old(self).conns@[*id].subscriptions@.remove(req.service_cookie)
-                &&& final(self).conns@[*id].rest_eq(&old(self).conns@[*id], 5)
+                &&& final(self).conns@[*id].rest_eq(&old(self).conns@[*id], 5) && final(self).conn_events_same(old(self), *id)
             },
             // the invariant last (the frame facts above are then available), conjunct by conjunct (one query each
             // keeps the solver stable), then as a whole
@@ -273,10 +257,10 @@ impl Broker {
                 ||| (r is Ok && final(self).only_subs_changed(old(self), k, *id)
                         && old(self).conns@[old(self).objs@[k.0].conn_id].version.allows(18)
                         && final(self).svcs@[k].all_events@ == old(self).svcs@[k].all_events@.insert(*id)
-                        && final(self).svcs@[k].events == old(self).svcs@[k].events
+                        && final(self).svcs@[k].events == old(self).svcs@[k].events && final(self).svc_events_same(old(self), k)
                         && final(self).svcs@[k].subscriptions == old(self).svcs@[k].subscriptions
                         && final(self).conns@[*id].all_events@ == old(self).conns@[*id].all_events@.insert(req.service_cookie)
-                        && final(self).conns@[*id].rest_eq(&old(self).conns@[*id], 4))
+                        && final(self).conns@[*id].rest_eq(&old(self).conns@[*id], 4) && final(self).conn_events_same(old(self), *id))
             },
             // the invariant last (the frame facts above are then available), conjunct by conjunct (one query each
             // keeps the solver stable), then as a whole
@@ -297,10 +281,10 @@ impl Broker {
                 ||| final(self).unchanged(old(self))
                 ||| (r is Ok && final(self).only_subs_changed(old(self), k, *id)
                         && final(self).svcs@[k].all_events@ == old(self).svcs@[k].all_events@.remove(*id)
-                        && final(self).svcs@[k].events == old(self).svcs@[k].events
+                        && final(self).svcs@[k].events == old(self).svcs@[k].events && final(self).svc_events_same(old(self), k)
                         && final(self).svcs@[k].subscriptions == old(self).svcs@[k].subscriptions
                         && final(self).conns@[*id].all_events@ == old(self).conns@[*id].all_events@.remove(req.service_cookie)
-                        && final(self).conns@[*id].rest_eq(&old(self).conns@[*id], 4))
+                        && final(self).conns@[*id].rest_eq(&old(self).conns@[*id], 4) && final(self).conn_events_same(old(self), *id))
             },
             // the invariant last (the frame facts above are then available), conjunct by conjunct (one query each
             // keeps the solver stable), then as a whole
